@@ -1477,4 +1477,136 @@ theorem sim_begin {s0 : St} {o : Ob} {m : MS} {c : Call} (hI : Inv s0) (h : Coup
         rw [hs, List.drop_length, obCall_nil', hbc]
         exact hb
 
+/-! ### The read path handles a frame -/
+
+theorem conc_frame (c : Option Call) (g : Option CFrame) (f : OutFrame) : (conc c g f).frame = f := by
+  unfold conc
+  split <;> rfl
+
+/-- The read path has taken frame `g` from the buffer (it is about to handle it). -/
+theorem coup_take {s : St} {o : Ob} {m : MS} {g : CFrame} {restC net' : List CFrame} (rd' : Option (CbId × RKind))
+    (h : Coup max s o m []) (hq : o.inboxC ++ o.net = g :: restC ++ net') (hrd : rd' = none ∨ rd' = s.rd) :
+    Coup max { s with rd := rd', inbox := restC.map absFrame } { o with inboxC := restC, net := net' } m [g] := by
+  have hlocs : ∀ p ∈ locs { s with rd := rd', inbox := restC.map absFrame }, p ∈ locs s := by
+    intro p hp
+    rcases hrd with rfl | rfl
+    · simp only [locs, wrK, rdK, List.mem_append, List.not_mem_nil, or_false] at hp ⊢
+      rcases hp with (h1 | h1) | h1 <;> mem_or
+    · exact hp
+  refine ⟨h.max, h.ledMem, h.ledAll, h.stk, h.spec, h.errs, h.hl, h.last, h.subF, h.subM, h.exp, h.rep, rfl, ?_, h.heldOk, h.win,
+    fun p hp => h.chain p (hlocs p hp), h.rdr1, fun p hp => h.rdr2 p (hlocs p hp), h.rdr3, h.rdr4, h.rdr5, ?_⟩
+  · intro hsy hne
+    obtain ⟨h1, h2⟩ := h.rdq hsy hne
+    refine ⟨?_, h2⟩
+    show m.inq = o.held ++ o.cur.toList ++ [g] ++ restC ++ net'
+    rw [h1]
+    simp only [List.append_nil, List.append_assoc]
+    rw [hq]
+    simp
+  · intro hr
+    rcases hrd with rfl | rfl
+    · cases hr
+    · exact h.rdCan hr
+
+/-- Generic form of "the read path has handled frame `g`": the frames it queued are `news`, the tasks it scheduled are
+`tops`; what is specific to the outcome is passed in. -/
+theorem coup_onframe {s0 s' : St} {o0 : Ob} {m : MS} {g : CFrame} {cb : CbId} {lk : LK}
+    (h0 : Coup max s0 o0 m [g]) (hns : ∀ t ∈ s0.stack, special t = false)
+    (news : List OutFrame) (tops : List Task) (held' : List CFrame) (cur' : Option CFrame)
+    (e_sub : s'.submitted = s0.submitted ++ news) (e_stack : s'.stack = tops ++ s0.stack)
+    (e_started : s'.started = s0.started) (e_log : s'.log = s0.log) (e_rb : s'.readBusy = s0.readBusy)
+    (e_inbox : s'.inbox = s0.inbox) (e_healthy : s'.healthy = s0.healthy) (e_rd : s'.rd = none)
+    (hlocs : ∀ p ∈ locs s', p ∈ locs s0 ∨ p = (cb, .r) ∨ p = (cb, lk))
+    (hkind : compat (kindOf o0 cb) lk)
+    (hreader : ∃ b, o0.reader = some (cb, b) ∧ (lk = .f → b = false) ∧ (lk = .m → b = true))
+    (hlkr : lk = .f ∨ lk = .m)
+    (hmat : ∀ fr ∈ news, (conc none (some g) fr).want.matches (conc none (some g) fr).wf = true)
+    (hws : s0.ws ≠ .terminated)
+    (htopsShape : ∀ t ∈ tops, shapeT t = none) (htail : ∀ t ∈ tops.tail, special t = false)
+    (herrs : ∀ cb1, Task.invoke cb1 .err false ∉ tops)
+    (hheld : held' ++ cur'.toList = o0.held ++ [g])
+    (hheldOk : ∀ x ∈ held', controlOp x.op = false ∧ x.fin = false)
+    (hrdr4 : (∀ cb', o0.reader ≠ some (cb', true)) → held' = [])
+    (hlast' : m.last = stOf s'.ws ∨ windowTop s'.stack = true)
+    (hpend : pendW s' { o0 with sub := o0.sub ++ news.map (conc none (some g)), held := held', cur := cur' } m.last =
+      news.map (fun fr => (conc none (some g) fr).want))
+    (hwin : Window s' { o0 with sub := o0.sub ++ news.map (conc none (some g)), held := held', cur := cur' } m) :
+    Coup max s' { o0 with sub := o0.sub ++ news.map (conc none (some g)), held := held', cur := cur' } m [] := by
+  have hcur0 : o0.cur = none := cur_of_not_special h0.win (head_of_ns hns)
+  have hp0 : pendW s0 o0 m.last = [] := pendW_of_not_special o0 _ (head_of_ns hns)
+  obtain ⟨b, hb, hbf, hbm⟩ := hreader
+  have hfilter : ∀ (l : List Task), (∀ t ∈ l, shapeT t = none) → l.filterMap shapeT = [] := by
+    intro l hl
+    induction l with
+    | nil => rfl
+    | cons t r ih =>
+      rw [List.filterMap_cons, hl t (List.mem_cons_self ..)]
+      exact ih (fun y hy => hl y (List.mem_cons_of_mem _ hy))
+  refine ⟨h0.max, ?_, ?_, ?_, ?_, ?_, ?_, hlast', ?_, ?_, ?_, ?_, ?_, ?_, hheldOk, hwin, ?_, ?_, ?_, h0.rdr3, ?_, ?_, ?_⟩
+  · rw [e_started, e_log]; exact h0.ledMem
+  · rw [e_started]; exact h0.ledAll
+  · rw [e_stack, List.filterMap_append, hfilter tops htopsShape, List.nil_append]; exact h0.stk
+  · intro t ht
+    rw [e_stack] at ht
+    cases tops with
+    | nil => exact hns t (List.mem_of_mem_tail ht)
+    | cons t0 r =>
+      simp only [List.cons_append, List.tail_cons] at ht
+      rcases List.mem_append.1 ht with h1 | h1
+      · exact htail t h1
+      · exact hns t h1
+  · intro cb1 hc1
+    rw [e_stack] at hc1
+    rcases List.mem_append.1 hc1 with h1 | h1
+    · exact absurd h1 (herrs cb1)
+    · exact h0.errs cb1 h1
+  · rw [e_healthy]; exact h0.hl
+  · show (o0.sub ++ news.map (conc none (some g))).map (·.frame) = s'.submitted
+    rw [List.map_append, h0.subF, e_sub, List.map_map]
+    congr 1
+    have : ((fun x : Sub => x.frame) ∘ conc none (some g)) = id := by funext fr; exact conc_frame _ _ fr
+    rw [this, List.map_id]
+  · intro y hy
+    rcases List.mem_append.1 hy with h1 | h1
+    · exact h0.subM y h1
+    · obtain ⟨fr, hfr, rfl⟩ := List.mem_map.1 h1
+      exact hmat fr hfr
+  · intro hh
+    have he := h0.exp hh
+    have hr := h0.rep hh
+    rw [hp0, List.append_nil] at he
+    rw [hpend]
+    show _ = ((o0.sub ++ news.map (conc none (some g))).drop o0.reported).map (·.want)
+    rw [List.drop_append_of_le_length hr, List.map_append, he, List.map_map]
+    rfl
+  · intro hh
+    show o0.reported ≤ (o0.sub ++ news.map (conc none (some g))).length
+    have := h0.rep hh
+    simp only [List.length_append]; omega
+  · rw [e_inbox]; exact h0.inb
+  · intro hsy _
+    obtain ⟨h1, h2⟩ := h0.rdq hsy hws
+    refine ⟨?_, h2⟩
+    show m.inq = held' ++ cur'.toList ++ [] ++ o0.inboxC ++ o0.net
+    rw [h1, hcur0, hheld]
+    simp
+  · intro p hp
+    rcases hlocs p hp with h1 | rfl | rfl
+    · exact h0.chain p h1
+    · show (kindOf o0 cb).isRead = true
+      rcases hlkr with rfl | rfl
+      · rw [show kindOf o0 cb = .read from hkind]; rfl
+      · rw [show kindOf o0 cb = .readMsg from hkind]; rfl
+    · exact hkind
+  · rw [e_rb]; exact h0.rdr1
+  · intro p hp hrp
+    rcases hlocs p hp with h1 | rfl | rfl
+    · exact h0.rdr2 p h1 hrp
+    · exact ⟨b, hb, (fun e => by cases e), (fun e => by cases e)⟩
+    · exact ⟨b, hb, hbf, hbm⟩
+  · intro hr
+    exact ⟨hrdr4 hr, (h0.rdr4 hr).2⟩
+  · rw [e_started]; exact h0.rdr5
+  · intro hr; rw [e_rd] at hr; cases hr
+
 end Sonic.Model.WsAsyncObs
